@@ -103,7 +103,11 @@ pub fn dec_value<'a, I: Iterator<Item = &'a str>>(toks: &mut I) -> Value {
             "M" => Value::from(rest.parse::<i64>().unwrap()),
             "D" => {
                 let bits = rest.split('/').next().unwrap();
-                Value::from(f64::from_bits(u64::from_str_radix(bits, 16).unwrap()))
+                if bits == "nan" {
+                    Value::from(f64::NAN)
+                } else {
+                    Value::from(f64::from_bits(u64::from_str_radix(bits, 16).unwrap()))
+                }
             }
             "C" => Value::Char(char::from_u32(u32::from_str_radix(rest, 16).unwrap()).unwrap()),
             "S" => Value::string(String::from_utf8(unhex(rest)).unwrap()),
